@@ -471,9 +471,12 @@ func (gen *Generator) GenerateCond(args []Sexp) error {
 }
 
 func (gen *Generator) GenerateQuote(args []Sexp) error {
-	for _, expr := range args {
-		gen.AddInstruction(PushInstr{expr})
+	// one form in, one value out: with more arguments every one of them was
+	// pushed and all but the last stayed on the stack after the evaluation.
+	if len(args) != 1 {
+		return fmt.Errorf("quote takes exactly one argument")
 	}
+	gen.AddInstruction(PushInstr{args[0]})
 	return nil
 }
 
